@@ -60,7 +60,12 @@ MonStim(M, s) ==
 \* a call the manager makes on the transport while handling the stimulus
 MonCall(M, c) ==
   CASE c.c \in {"dial", "open"} ->
-         IF c.cid \in DOMAIN M.att THEN Fail(M, "attempt id reused")
+         \* a dial by peer id hands the same attempt to several transports: one open() per
+         \* transport within the same request, each with its share of the addresses
+         IF c.cid \in DOMAIN M.att THEN
+              IF c.c = "open" /\ M.newAtt /\ M.att[c.cid].st = "open" /\ "p" \in DOMAIN M.stim /\ M.att[c.cid].peer = M.stim.p
+                THEN [M EXCEPT !.att[c.cid].addrs = @ \o c.addrs]
+                ELSE Fail(M, "attempt id reused")
          ELSE IF M.stim.a \notin {"dial", "dial_addr", "hdial", "hdial_addr", "probe"} THEN Fail(M, "dial without request")
          ELSE \* a fresh attempt for a tainted peer shows the peer is not wedged: trust it again,
               \* its already reported attempts are closed in the ledger
